@@ -18,6 +18,13 @@ def add(x, y):
   return x + y
 
 
+def kwf(**kw):
+  """Order-observing keyword callee: 10 * (first keyword's value) + (second keyword's value)."""
+  vals = list(kw.values())
+  assert sorted(kw) == ['a', 'z'], kw
+  return 10 * vals[0] + vals[1]
+
+
 def tick():
   TICKS[0] += 1
   return 100 * TICKS[0]
@@ -43,7 +50,7 @@ def box(x):
   return Box(x)
 
 
-FUNCS = dict(inc=inc, add=add, tick=tick, boom=boom, box=box)
+FUNCS = dict(inc=inc, add=add, tick=tick, boom=boom, box=box, kwf=kwf)
 
 
 def build(e):
@@ -54,6 +61,8 @@ def build(e):
     return e['v']
   if t == 'call':
     args = [build(a) for a in e['args']]
+    if e['f'] == 'kwf':
+      return lazy_fns.trace(kwf)(z=args[0], a=args[1], cache_result_=bool(e['c']))
     return lazy_fns.trace(FUNCS[e['f']])(*args, cache_result_=bool(e['c']))
   if t == 'attr':
     return build(e['e']).val
@@ -69,6 +78,8 @@ def eager(e):
     return e['v']
   if t == 'call':
     args = [eager(a) for a in e['args']]
+    if e['f'] == 'kwf':
+      return kwf(z=args[0], a=args[1])
     return FUNCS[e['f']](*args)
   if t == 'attr':
     return eager(e['e']).val
